@@ -477,6 +477,9 @@ def check_dict(ctx, nodes, key_len, tag):
     ncalls = int(calls.split('.')[1])
     if ncalls > 2 * tsize:
         ctx.corr_broken(f'dict model: calls {ncalls} > 2*treeSize {2 * tsize} on {tag} (contradicts c19_dict_parse)')
+    entries, stops = int(a[4]), int(a[5])
+    if calls.startswith('done') and ncalls + 2 != 4 * (entries + stops):
+        ctx.corr_broken(f'dict model: calls {ncalls} != 4*(entries {entries} + stops {stops}) - 2 on {tag} (contradicts c19_dict_output)')
     inp = {'dict': [list(n) for n in nodes], 'key_len': key_len, 'tag': tag}
     try:
         cells = dd_build(nodes)
@@ -491,6 +494,11 @@ def check_dict(ctx, nodes, key_len, tag):
     ctx.count('dict-model:' + res.split('.')[0])
     if judge(ctx, 'dict', steps, m, inp, 'HashMap.parse'):
         lib_raised = m.exc is not None
+        # output-bounded reading (c19_dict_output): the entries the model counts are the entries the library returns
+        if res.startswith('done') and not lib_raised and isinstance(m.result, dict) and key_len != 0 and root.type_ == -1:
+            ctx.count('dict:entries-compared')
+            if len(m.result) != entries:
+                ctx.corr_broken(f'dict model: {entries} entries (dictOut) but the library returned {len(m.result)} on {tag}')
         if res.startswith('done') and lib_raised and not isinstance(m.exc, RecursionError):
             ctx.count('dict:model-done-lib-raised')
     return m
